@@ -157,19 +157,70 @@ def check (h : TyName) (allowNull : Bool) (v : V) : Bool :=
     | some p => holds p v
     | none => typeName v == h || baseChain h v
 
-/-- The same `loop` over a *graph* of maps (nodes are numbers, `base n` is the node in `n`'s `@base`
-entry, `ty n` its type name), where — unlike in the tree universe `V` — a chain can be cyclic.
-`none` = the fuel ran out with the loop still going. The code has no cycle detection (F-C16-2). -/
-def walkBase (ty : Nat → TyName) (base : Nat → Option Nat) (h : TyName) : Nat → Nat → Option Bool
-  | 0, _ => none
-  | fuel + 1, n =>
-    match base n with
+/-! ### Possibly cyclic `@base` chains
+
+In the tree universe `V` every chain ends. A running program can tie a chain into a cycle (a test
+function receives the module's export map as `self` and can `export @base = self`), so the two walks
+are also modelled over a *graph* of maps: node `n` has its own `@type` entry and the index of the map
+in its `@base` entry. Both walks keep the maps they have visited (`is_same_instance`) and stop when
+they meet one again (/repo commit 76738c2). The outer `none` of the results means "fuel exhausted";
+`Props/C16.lean` proves it never happens with fuel `g.length + 1`. -/
+
+structure GNode where
+  ty : MetaTy
+  base : Option Nat
+  deriving Repr, Inhabited
+
+abbrev Graph := List GNode
+
+def gBase (g : Graph) (n : Nat) : Option Nat :=
+  match g[n]? with
+  | some nd => nd.base
+  | none => none
+
+/-- `KMap::meta_type` (iterative, with the visited list) -/
+def metaTypeG (g : Graph) : Nat → List Nat → Nat → Option (Option TyName)
+  | 0, _, _ => none
+  | fuel + 1, vis, n =>
+    match g[n]? with
+    | none => some none
+    | some nd =>
+      match nd.ty with
+      | .str s => some (some s)
+      | .nonString => some (some badMetaTypeName)
+      | .absent =>
+        match nd.base with
+        | none => some none
+        | some b => if (n :: vis).contains b then some none else metaTypeG g fuel (n :: vis) b
+
+/-- `type_as_string` of graph node `n` -/
+def typeNameG (g : Graph) (n : Nat) : TyName :=
+  ((metaTypeG g (g.length + 1) [] n).getD none).getD objectName
+
+/-- the `loop` of `compare_value_type` (with the visited list) -/
+def walkG (g : Graph) (h : TyName) : Nat → List Nat → Nat → Option Bool
+  | 0, _, _ => none
+  | fuel + 1, vis, n =>
+    match gBase g n with
     | none => some false
-    | some b => if ty b = h then some true else walkBase ty base h fuel b
+    | some b =>
+      if vis.contains n then some false
+      else if typeNameG g b = h then some true
+      else walkG g h fuel (n :: vis) b
+
+/-- `compare_value_type` on graph node `n` (every node is a map with a metamap) -/
+def checkG (g : Graph) (h : TyName) (allowNull : Bool) (n : Nat) : Bool :=
+  let _ := allowNull   -- a map is never null
+  match specialLookup h specialTable with
+  | some .always => true
+  | some .callable => false
+  | some .indexable => true
+  | some .iterable => false
+  | none => typeNameG g n == h || (walkG g h (g.length + 1) [] n).getD false
 
 /-- `b` is reached from `a` by `k` `@base` steps -/
-def reaches (base : Nat → Option Nat) : Nat → Nat → Nat → Prop
+def reachesG (g : Graph) : Nat → Nat → Nat → Prop
   | 0, a, b => a = b
-  | k + 1, a, b => ∃ m, base a = some m ∧ reaches base k m b
+  | k + 1, a, b => ∃ m, gBase g a = some m ∧ reachesG g k m b
 
 end KotoVerif.Types
